@@ -86,6 +86,10 @@ def service_cases(tier, inst):
     # tolerance-edge family: two streams whose bounds differ by tiny amounts
     T = A.lattice(inst, 4)
     cpu = inst[2]
+    # a latent stream (0.01 K span by convention) next to a stream bound 0.05 K away: the span of the latent stream matters
+    for off in (0.05, 0.005):
+        yield {"streams": [(T[2], T[2], -cpu * inst[1], 0.0), (T[2] - off, T[3], 2 * cpu * (T[3] - T[2]), 0.0)], "zones": ["A", "A"]}
+        yield {"streams": [(T[1], T[1], cpu * inst[1], 0.0), (T[1] + off, T[0], 2 * cpu * (T[1] - T[0]), 0.0)], "zones": ["A", "A"]}
     for e in (4e-7, 5e-6, 2e-5, 1e-4):
         for sgn in (1, -1):
             d = sgn * e
